@@ -1,6 +1,9 @@
 import Mieru.Gen.Consts
 import Mieru.Gen.Facts
+import Mieru.Gen.FirstContact
 import Mieru.Proofs.Replay
+import Mieru.Proofs.ServerReplay
+import Mieru.Proofs.ReplayGen
 /-!
 # C06 — the replay cache never misses inside its bounds, never reports never-seen traffic
 
@@ -12,8 +15,17 @@ refresh interval).
 A history is a list of calls `(signature, tag, instant)`; signatures are the FNV-1a-64 values the
 code computes (`Mieru.Replay.fnv1a64`), so "same signature" is exactly what the code compares.
 
-Protocol-level part of C06 (a byte-exact replay of a recorded TCP connection / UDP datagram draws no
-reply): NOT here — it needs the in-memory network of the integrator; see docs/notes/C06.md (TODO).
+Protocol level (section "The three layers composed" at the end): `Mieru.ServerReplay` makes the
+first-contact model of C05 CALL the cache model on the signature of what arrived (`dup` is computed,
+not given); `tcp_replay_never_accepted` / `udp_replay_other_source_never_accepted` are the property's
+first sentence as theorems: a first segment / datagram that was accepted, presented again later on a
+fresh connection / from another address, yields no output, no session, nothing for the proxy
+application — for EVERY later instant: while its stamp is still acceptable the cache reports it (window
+< retention, regenerated constants), afterwards `Unmarshal` refuses it.  The one hypothesis that
+remains is the cache's capacity bound (`FewOthers`): fewer than `capacity` distinct other signatures
+consulted in between.  It is NOT implied by the property's first sentence and an unauthenticated peer
+can exceed it: `replay_accepted_after_flood_counterexample` (known finding
+`C06/replay-accepted-after-cache-flood`, reproduced on the real server with scaled-down caches).
 -/
 namespace Mieru.C06
 open Mieru.Replay Mieru.Proofs.Replay
@@ -334,5 +346,211 @@ example : answers (init 8 300 0) [⟨7, [], 100⟩, ⟨7, [], 100⟩, ⟨7, [], 
 /-- what a split check / record would allow (the interleaving check₁ check₂ record₁ record₂): both
     copies see a cache that does not hold the unit — the schedule the tie above excludes -/
 example : (step (init 8 300 0) 7 [] 100).2 = false ∧ Fresh (init 8 300 0) 7 := ⟨by decide, rfl, rfl⟩
+
+/-! ## The structure of `IsDuplicate`, regenerated
+
+`Mieru.Replay.step = lookup ∘ rot` is a hand transcription of `ReplayCache.IsDuplicate`.  The function
+is regenerated from the source statement by statement on every run; the expected text below is the
+one the model was transcribed from, line by line:
+  lines 1–3    `isDuplicate`: capacity 0 (or nil) ⇒ false, nothing touched
+  line  4      `fnv1a64` (`computeSignature` = FNV-1a-64 of the data: second fact)
+  lines 7–11   `rot`, first `if`: `now > exp + iv` (written `time.Since(exp) > iv`) ⇒ both generations
+               emptied, deadline re-armed
+  lines 12–16  `rot`, second `if`: `len(current) >= capacity ∨ now > exp` ⇒ previous := current,
+               current := {}, deadline re-armed — evaluated AFTER the first `if`
+  lines 17–22  `lookup`, found in `current`: the tag rule (`tagConflict`), no write
+  lines 23–29  `lookup`, found in `previous`: re-inserted into `current` WITH THE STORED TAG, tag rule
+  lines 30–31  `lookup`, absent: inserted with the presenter's tag, false
+Any edit of the function — order of the checks, a comparison operator, which tag is stored — changes
+the regenerated list and breaks this theorem at build time (in addition to the correspondence run). -/
+theorem isDuplicate_shape :
+    Mieru.Gen.FirstContact.isDuplicateBody =
+      ["if c == nil || c.capacity == 0 {", "return false", "}",
+       "signature := c.computeSignature(data)", "c.mu.Lock()", "defer c.mu.Unlock()",
+       "if time.Since(c.expireTime) > c.expireInterval {", "c.current = make(map[uint64]string)",
+       "c.previous = make(map[uint64]string)", "c.expireTime = time.Now().Add(c.expireInterval)", "}",
+       "if len(c.current) >= c.capacity || time.Now().After(c.expireTime) {", "c.previous = c.current",
+       "c.current = make(map[uint64]string)", "c.expireTime = time.Now().Add(c.expireInterval)", "}",
+       "if existingTag, ok := c.current[signature]; ok {", "if existingTag == EmptyTag || tag == EmptyTag {",
+       "return true", "}", "return existingTag != tag", "}",
+       "if existingTag, ok := c.previous[signature]; ok {", "c.current[signature] = existingTag",
+       "if existingTag == EmptyTag || tag == EmptyTag {", "return true", "}", "return existingTag != tag", "}",
+       "c.current[signature] = tag", "return false"] ∧
+    Mieru.Gen.FirstContact.computeSignatureBody = ["hash := fnv.New64a()", "hash.Write(data)", "return hash.Sum64()"] := by
+  refine ⟨by decide, by decide⟩
+
+/-- **Tie (T), full: the model IS the code as translated.**  `Mieru.Gen.ReplayGen.isDuplicate` is the
+    Go function translated statement by statement on every run (tools/goextract/replaytrans.go: the two
+    maps become association lists with Go's map semantics, `time.Now()` / `time.Since` read the
+    parameter `now`, the receiver is never nil, the body runs under the mutex).  For EVERY cache state,
+    item, tag and instant the hand-written model — the one every theorem of this file is about — returns
+    the same answer and the same new state.  A change of the Go function changes the regenerated
+    definition and breaks this proof (or makes the translator emit BROKEN-TIE). -/
+theorem isDuplicate_model_eq_gen (c : Cache) (data : List UInt8) (tag : Tag) (now : Nat) :
+    Mieru.Gen.ReplayGen.isDuplicate fnv1a64 (Mieru.Proofs.ReplayGen.toGen c) data tag (now : Int) =
+      (Mieru.Proofs.ReplayGen.toGen (isDuplicate c data tag now).1, (isDuplicate c data tag now).2) :=
+  Mieru.Proofs.ReplayGen.isDuplicate_eq_gen c data tag now
+
+/-! ## The three layers composed: cache + validity window + first contact
+
+`Mieru.ServerReplay.tcpFirstContact` / `udpContact` consult the cache model with the signature of the
+first 16 bytes (stream: `EmptyTag`; datagram: the source address) and run the first-contact step of
+`Mieru.Server` on the ANSWER.  Instants `t` are the cache's clock (monotonic, ns); `ts` are Unix ns on
+the receiver's wall clock, against which the timestamp rule is evaluated; `hclock` says the two clocks
+advance alike between the two presentations. -/
+
+open Mieru.Server Mieru.ServerReplay Mieru.Proofs.ServerReplay Mieru.Proofs.Server
+
+/-- Flag level (what `Props/C05` used to carry): a stream whose first 16 bytes the cache reports is
+    closed without a reply whether or not it decrypts, whatever follows it. -/
+theorem tcp_replay_flag_silent (u : TcpUnit) (rest : List TcpUnit) (hav : firstReadLen ≤ u.avail) (h : u.dup = true) :
+    (tcpRun {} (u :: rest)).out = [] ∧ (tcpRun {} (u :: rest)).accepted = [] ∧ (tcpRun {} (u :: rest)).closed = true := by
+  have hv : u.validOpen = false := by simp [TcpUnit.validOpen, h]
+  obtain ⟨h1, _, h3, h4⟩ := tcp_fresh_invalid_run u rest hav hv
+  exact ⟨h1, h3, h4⟩
+
+/-- a datagram the cache reports is dropped even though it decrypts — on the discovery path AND on the
+    existing-session path, in any state of the socket -/
+theorem udp_replay_flag_dropped (s : UdpSt) (u : UdpUnit) (h : u.dupOther = true) : udpStep s u = s := by
+  apply udpStep_not_effective; simp [UdpUnit.effective, h]
+
+/-- TCP, cache level.  After ANY consultation that carried signature `e` at `t0` (the original
+    connection, whatever became of it), any other consultations `mid` inside the retention window with
+    fewer than `capacity` distinct other signatures, a fresh connection whose first 72 bytes carry `e`
+    at `t1 ≤ t0 + interval` is closed: no output, no session, nothing accepted — whether or not it
+    decrypts, whatever it goes on to send. -/
+theorem tcp_replay_in_window_silent (c : Cache) (hcap : 0 < c.cap) (e : Sig) (tag0 : Tag) (t0 t1 : Nat)
+    (mid : List Call) (u : TcpUnit) (rest : List TcpUnit) (hav : firstReadLen ≤ u.avail)
+    (hmid : ∀ p ∈ mid, t0 ≤ p.time ∧ p.time ≤ t0 + c.iv) (ht0 : t0 ≤ t1) (ht : t1 ≤ t0 + c.iv)
+    (hfew : FewOthers c.cap e mid) :
+    (tcpConnection (run (consult c e tag0 t0).1 mid) e t1 u rest).2.out = [] ∧
+    (tcpConnection (run (consult c e tag0 t0).1 mid) e t1 u rest).2.sessions = [] ∧
+    (tcpConnection (run (consult c e tag0 t0).1 mid) e t1 u rest).2.accepted = [] ∧
+    (tcpConnection (run (consult c e tag0 t0).1 mid) e t1 u rest).2.closed = true := by
+  apply tcpConnection_dup _ e t1 u rest hav
+  have hcap2 : 0 < (run (consult c e tag0 t0).1 mid).cap := by
+    rw [(run_cap _ mid).1, consult_eq_step c hcap, (step_cap c e tag0 t0).1]; exact hcap
+  rw [consult_eq_step _ hcap2, consult_eq_step c hcap]
+  exact replay_no_miss_empty_tag c mid e tag0 t0 t1 hmid ht0 ht hfew
+
+/-- **C06, first sentence, TCP.**  A first segment stamped with minute `m` was ACCEPTED at cache
+    instant `t0` / wall instant `ts0` (`hacc`; that very consultation recorded its first 16 bytes).  A
+    byte-exact copy of it — same signature `e`, same stamp — opens a fresh connection at ANY later
+    instant `t1` / `ts1`, followed by anything (`rest1`: the whole recorded stream, any prefix of it,
+    garbage).  All cache traffic in between (`mid`: the rest of the original connection, other
+    connections, probes) carries fewer than `capacity` distinct other signatures.  Then the copy draws
+    no reply, opens no session, reaches no application, and its connection is closed:
+    while the stamp is still acceptable the two presentations are < 180 s apart, inside the retention
+    `streamReplayIntervalNs` (regenerated constant), so the cache reports the copy; once the stamp is
+    no longer acceptable `Unmarshal` refuses it. -/
+theorem tcp_replay_never_accepted (c : Cache) (hcap : 0 < c.cap)
+    (hiv : (c.iv : Int) = Mieru.Gen.streamReplayIntervalNs)
+    (e : Sig) (t0 t1 : Nat) (u0 u1 : TcpUnit) (rest1 : List TcpUnit) (mid : List Call) (m ts0 ts1 : Int)
+    (hacc : (tcpFirstContact c e t0 u0).2.accepted ≠ [])
+    (hcopy : firstReadLen ≤ u1.avail)
+    (hclock : (t1 : Int) - t0 = ts1 - ts0) (hord : t0 ≤ t1)
+    (h0 : u0.md.tsOk = true → tsAccept m ts0) (h1 : u1.md.tsOk = true → tsAccept m ts1)
+    (hmid : ∀ p ∈ mid, t0 ≤ p.time ∧ p.time ≤ t1)
+    (hfew : FewOthers c.cap e mid) :
+    (tcpConnection (run (tcpFirstContact c e t0 u0).1 mid) e t1 u1 rest1).2.out = [] ∧
+    (tcpConnection (run (tcpFirstContact c e t0 u0).1 mid) e t1 u1 rest1).2.sessions = [] ∧
+    (tcpConnection (run (tcpFirstContact c e t0 u0).1 mid) e t1 u1 rest1).2.accepted = [] ∧
+    (tcpConnection (run (tcpFirstContact c e t0 u0).1 mid) e t1 u1 rest1).2.closed = true := by
+  obtain ⟨_, hts0, hc0, _⟩ := tcpFirstContact_accepted c e t0 u0 hacc
+  cases hts : u1.md.tsOk with
+  | false => exact tcpConnection_tsBad _ e t1 u1 rest1 hcopy hts
+  | true =>
+    have hw := (replay_window_lt_retention m ts0 ts1 (h0 hts0) (h1 hts)).1
+    have ht : t1 ≤ t0 + c.iv := by
+      unfold nsPerSec at hw; unfold Mieru.Gen.streamReplayIntervalNs at hiv; omega
+    rw [hc0]
+    exact tcp_replay_in_window_silent c hcap e emptyTag t0 t1 mid u1 rest1 hcopy
+      (fun p hp => ⟨(hmid p hp).1, Nat.le_trans (hmid p hp).2 ht⟩) hord ht hfew
+
+/-- UDP, cache level.  `e` was not stored when source `srcA` presented it at `t0`; re-sent from ANY
+    other address `srcB` at `t1 ≤ t0 + interval`, with fewer than `capacity` distinct other signatures
+    in between — presented by anybody, `srcB` itself included, any number of times, across any
+    rotations — the datagram is dropped whatever the state of the socket (the original session still
+    alive or long gone). -/
+theorem udp_replay_in_window_dropped (c : Cache) (hcap : 0 < c.cap) (e : Sig) (srcA srcB : Tag) (hne : srcA ≠ srcB)
+    (hfresh : Fresh c e) (t0 t1 : Nat) (mid : List Call) (s : UdpSt) (u : UdpUnit)
+    (hmid : ∀ p ∈ mid, t0 ≤ p.time ∧ p.time ≤ t0 + c.iv) (ht0 : t0 ≤ t1) (ht : t1 ≤ t0 + c.iv)
+    (hfew : FewOthers c.cap e mid) :
+    (udpContact (run (consult c e srcA t0).1 mid) e srcB t1 s u).2 = s := by
+  apply udpContact_dup
+  have hcap2 : 0 < (run (consult c e srcA t0).1 mid).cap := by
+    rw [(run_cap _ mid).1, consult_eq_step c hcap, (step_cap c e srcA t0).1]; exact hcap
+  rw [consult_eq_step _ hcap2, consult_eq_step c hcap,
+    replay_no_miss_owner_tag c mid e srcA srcB t0 t1 hfresh hmid ht0 ht hfew]
+  simp [tagConflict, hne]
+
+/-- **C06, first sentence, UDP.**  A datagram stamped with minute `m`, never seen before (`hfresh`: a
+    genuine client's nonce is fresh), from address `srcA` was acted upon at `t0` / `ts0` (`hacc`: it
+    changed the state of the socket — opened its session).  Re-sent byte for byte from a different
+    address `srcB` at ANY later instant, into ANY state `s` of the socket, it is dropped: no session,
+    no reply. -/
+theorem udp_replay_other_source_never_accepted (c : Cache) (hcap : 0 < c.cap)
+    (hiv : (c.iv : Int) = Mieru.Gen.packetReplayIntervalNs)
+    (e : Sig) (srcA srcB : Tag) (hne : srcA ≠ srcB) (hfresh : Fresh c e)
+    (t0 t1 : Nat) (s0 s : UdpSt) (u0 u1 : UdpUnit) (mid : List Call) (m ts0 ts1 : Int)
+    (hacc : (udpContact c e srcA t0 s0 u0).2 ≠ s0)
+    (hclock : (t1 : Int) - t0 = ts1 - ts0) (hord : t0 ≤ t1)
+    (h0 : u0.md.tsOk = true → tsAccept m ts0) (h1 : u1.md.tsOk = true → tsAccept m ts1)
+    (hmid : ∀ p ∈ mid, t0 ≤ p.time ∧ p.time ≤ t1)
+    (hfew : FewOthers c.cap e mid) :
+    (udpContact (run (udpContact c e srcA t0 s0 u0).1 mid) e srcB t1 s u1).2 = s := by
+  obtain ⟨_, hts0, hc0, _⟩ := udpContact_effective c e srcA t0 s0 u0 hacc
+  cases hts : u1.md.tsOk with
+  | false => exact udpContact_tsBad _ e srcB t1 s u1 hts
+  | true =>
+    have hw := (replay_window_lt_retention m ts0 ts1 (h0 hts0) (h1 hts)).1
+    have ht : t1 ≤ t0 + c.iv := by
+      unfold nsPerSec at hw; unfold Mieru.Gen.packetReplayIntervalNs at hiv; omega
+    rw [hc0]
+    exact udp_replay_in_window_dropped c hcap e srcA srcB hne hfresh t0 t1 mid s u1
+      (fun p hp => ⟨(hmid p hp).1, Nat.le_trans (hmid p hp).2 ht⟩) hord ht hfew
+
+/-- What the capacity hypothesis excludes, and the property's first sentence does not: the caches are
+    consulted BEFORE authentication, so anybody can push entries through them.  Capacity 2: a genuine
+    first segment (signature 7) is accepted at t = 1; four unauthenticated probes with fresh
+    signatures follow (two rotations by size); the byte-exact copy presented at t = 6 — well inside
+    the retention of 100 and with a still-valid stamp — is ACCEPTED AGAIN and answered.  With the
+    production capacity (4 194 304, regenerated) the same takes 2 × 4 194 304 distinct 72-byte probes
+    inside the < 180 s the stamp stays valid.  Known finding `C06/replay-accepted-after-cache-flood`;
+    the harness reproduces it on the real server with scaled-down caches. -/
+theorem replay_accepted_after_flood_counterexample :
+    let orig : TcpUnit := { avail := 72, opens := some 0, md := { proto := 2, sid := 7 } }
+    let probe : TcpUnit := { avail := 72, opens := none, md := { proto := 0, sid := 0 } }
+    let r := runTcp (init 2 100 0)
+      [.tcp 7 1 orig [], .tcp 8 2 probe [], .tcp 9 3 probe [], .tcp 10 4 probe [], .tcp 11 5 probe [], .tcp 7 6 orig []]
+    r.2.map (·.accepted) = [[7], [], [], [], [], [7]] ∧ r.2.map (·.out) = [[.sessionTraffic 7], [], [], [], [], [.sessionTraffic 7]] ∧
+    Mieru.Gen.streamReplayCapacity = 4194304 ∧ Mieru.Gen.packetReplayCapacity = 4194304 := by
+  decide
+
+/-! ### Non-vacuity of the composed theorems -/
+
+/-- the same history with ONE probe in between (1 < capacity 2): the copy is reported and closed -/
+example :
+    let orig : TcpUnit := { avail := 72, opens := some 0, md := { proto := 2, sid := 7 } }
+    let probe : TcpUnit := { avail := 72, opens := none, md := { proto := 0, sid := 0 } }
+    (runTcp (init 2 100 0) [.tcp 7 1 orig [], .tcp 8 2 probe [], .tcp 7 6 orig []]).2.map (·.accepted) = [[7], [], []] := by
+  decide
+
+/-- hypotheses of `tcp_replay_never_accepted` at a concrete point: accepted at t0 = 1 s, copy 100 s
+    later, both inside the minute window of stamp 29 000 000 -/
+example :
+    let orig : TcpUnit := { avail := 72, opens := some 0, md := { proto := 2, sid := 7 } }
+    (tcpFirstContact (init 4194304 360000000000 0) 7 1000000000 orig).2.accepted ≠ [] ∧
+    tsAccept 29000000 ((29000000 * 60 + 1) * nsPerSec) ∧ tsAccept 29000000 ((29000000 * 60 + 101) * nsPerSec) ∧
+    FewOthers 4194304 7 [⟨8, emptyTag, 2000000000⟩] :=
+  ⟨by decide, by unfold tsAccept minuteOf nsPerSec; omega, by unfold tsAccept minuteOf nsPerSec; omega,
+   (fewOthers_iff _ _ _).mpr (by decide)⟩
+
+/-- UDP: recorded from A = "a", re-sent from B = "b" twice after a rotation by time (interval 300): both
+    dropped; A's own retransmission is not a replay (same source) and is processed -/
+example :
+    let d : UdpUnit := { len := 72, discover := some 1, md := { proto := 2, sid := 9 } }
+    (runUdp (init 8 300 0) {} [.dgram 7 [97] 240 d, .dgram 7 [98] 364 d, .dgram 7 [98] 365 d]).2.accepted = [9] ∧
+    (udpContact (init 8 300 0) 7 [97] 240 {} d).2 ≠ {} := by decide
 
 end Mieru.C06
